@@ -222,9 +222,37 @@ def nonscalar_case(draw, mode):
     return {'mode': 'nonscalar', 'defs': G.defs, 'operand': operand, 'scalar': scal, 'form': form}
 
 
+@st.composite
+def relatives_case(draw, mode):
+    """X.I @ Y and Y @ X.I where X is NOT Y but a close relative: same class, same array objects inside, another map
+    (a dense operator and its transpose, A @ A.T and A.T @ A, D @ A and A @ D, A and a re-created equal-valued A).
+    The collapse-to-identity shortcut is keyed on operand identity and must not fire."""
+    G = gen.GenCtx(mode, cap=16)
+    S = draw(gen.structure(mode, cap=9).filter(lambda s_: bool(gen.dense_forms(s_))))
+    A = G.define(gen.g_dense(draw, G, S, square=True))
+    T = {'k': 'T', 'op': A}
+    form = draw(st.sampled_from(['transpose', 'AAt', 'DA', 'copy', 'same']))
+    if form == 'transpose':
+        X, Y = T, A
+    elif form == 'AAt':
+        X = {'k': 'compose', 'ops': [A, T], 'via': 'matmul', 'tree': [0, 1]}
+        Y = {'k': 'compose', 'ops': [T, A], 'via': 'matmul', 'tree': [0, 1]}
+    elif form == 'DA':
+        D = G.define(gen.g_diag(draw, G, S, zeros=False))
+        X = {'k': 'compose', 'ops': [D, A], 'via': 'matmul', 'tree': [0, 1]}
+        Y = {'k': 'compose', 'ops': [A, D], 'via': 'matmul', 'tree': [0, 1]}
+    elif form == 'copy':
+        X, Y = A, G.define(dict(G.defs[A['i']]))
+    else:
+        X, Y = A, A
+    if draw(st.booleans()):
+        X, Y = Y, X
+    return {'mode': 'relatives', 'defs': G.defs, 'X': X, 'Y': Y, 'form': form, 'side': draw(st.sampled_from(['X.I@Y', 'Y@X.I']))}
+
+
 def strategy(tier, mode):
     return st.one_of(tree_case(mode), tree_case(mode), tree_case(mode), chain_case(mode), ill_case(mode),
-                     ill_case(mode), nonscalar_case(mode))
+                     ill_case(mode), nonscalar_case(mode), relatives_case(mode))
 
 
 def _has_composite_both_sides(r, defs):
@@ -279,6 +307,22 @@ def check(recipe, mode):
             classes.append('reused_composite_operand')
         return {'nontrivial': recipe['nleaves'] >= 3 and both, 'classes': classes}
     b = ops.Builder(defs)
+    if recipe['mode'] == 'relatives':
+        from furax._base.core import IdentityOperator
+
+        opX = must_not_raise('build-X', b.build, recipe['X'])
+        opY = must_not_raise('build-Y', b.build, recipe['Y'])
+        mx = ops.denote(recipe['X'], defs, {}).M
+        my = ops.denote(recipe['Y'], defs, {}).M
+        Xi = must_not_raise('lazy-inverse', lambda: opX.I)
+        res = must_not_raise('build', (lambda: Xi @ opY) if recipe['side'] == 'X.I@Y' else (lambda: opY @ Xi))
+        same_map = mx.shape == my.shape and np.allclose(mx, my, rtol=1e-6, atol=1e-9)
+        if isinstance(res, IdentityOperator) and not same_map:
+            raise Violation('inverse-shortcut-unsound',
+                            f'{recipe["side"]} collapsed to the identity although X ({type(opX).__name__}) and Y are different '
+                            f'operators denoting different maps (form {recipe["form"]}): max |X - Y| = {np.abs(mx - my).max():.3g}')
+        return {'nontrivial': not same_map, 'classes': ['relatives:' + recipe['form'], 'side:' + recipe['side'],
+                                                        'collapsed' if isinstance(res, IdentityOperator) else 'kept']}
     if recipe['mode'] == 'ill':
         left = must_not_raise('build-left', b.build, recipe['left'])
         right = must_not_raise('build-right', b.build, recipe['right'])
